@@ -13,6 +13,9 @@ package parser
 //@   && p.peek3Token.LineNumber <= p.peek4Token.LineNumber && p.peek4Token.LineNumber <= MinLine(p.l)
 
 // errors are built from tokens with a proper line range: 1 <= start <= end (C18)
+// a token taken from the source: it has a line range 1 <= first <= last (C16: markers name real lines; C18: located errors)
+//@ pred TokLoc(t token.Token) = 1 <= t.LineNumber && t.LineNumber <= t.EndLineNumber
+
 //@ func NewParseError
 //@   requires [C18:located] 1 <= tok.LineNumber && tok.LineNumber <= tok.EndLineNumber
 //@   ensures [C18:err] result != nil && boxis(result, ParseError) && result.LineNumberStart == tok.LineNumber && result.LineNumberEnd == tok.EndLineNumber
@@ -173,8 +176,8 @@ package parser
 //@   p.constants == a && p.inlineTextsSet == b && p.inlineTextCounts == c && p.inlineMovementsSet == d && p.inlineMovementCounts == e
 
 // ---- hoisting slots (C06): every recorded inline text / moves() points at an existing argument slot of its command ----
-//@ pred TextSlotOK(t impText) = allocated(t.command) && 0 <= t.argPos && t.argPos < len(t.command.Args)
-//@ pred MoveSlotOK(m impMovement) = allocated(m.command) && 0 <= m.argPos && m.argPos < len(m.command.Args)
+//@ pred TextSlotOK(t impText) = TokLoc(t.text) && allocated(t.command) && 0 <= t.argPos && t.argPos < len(t.command.Args)
+//@ pred MoveSlotOK(m impMovement) = TokLoc(m.command.Token) && allocated(m.command) && 0 <= m.argPos && m.argPos < len(m.command.Args)
 //@ pred ImpOK(d *impData) = d == nil || ((forall k int :: {d.texts[k]} (0 <= k && k < len(d.texts)) ==> TextSlotOK(d.texts[k]))
 //@     && (forall k int :: {d.movements[k]} (0 <= k && k < len(d.movements)) ==> MoveSlotOK(d.movements[k])))
 
@@ -182,12 +185,12 @@ package parser
 // definitions have the same content, and there are as many definitions as registered contents ----
 //@ pred TKeyOf(t ast.Text) = mk(parser.textKey, t.Value, t.StringType)
 //@ pred TextTableOK(p *Parser) = len(p.inlineTexts) == len(p.inlineTextsSet)
-//@   && (forall k int :: {p.inlineTexts[k]} (0 <= k && k < len(p.inlineTexts)) ==> (indom(p.inlineTextsSet, TKeyOf(p.inlineTexts[k])) && p.inlineTextsSet[TKeyOf(p.inlineTexts[k])] == p.inlineTexts[k].Name && !p.inlineTexts[k].IsGlobal))
+//@   && (forall k int :: {p.inlineTexts[k]} (0 <= k && k < len(p.inlineTexts)) ==> (indom(p.inlineTextsSet, TKeyOf(p.inlineTexts[k])) && p.inlineTextsSet[TKeyOf(p.inlineTexts[k])] == p.inlineTexts[k].Name && !p.inlineTexts[k].IsGlobal && TokLoc(p.inlineTexts[k].Token)))
 //@   && (forall a int, b int :: {p.inlineTexts[a], p.inlineTexts[b]} (0 <= a && a < b && b < len(p.inlineTexts)) ==> TKeyOf(p.inlineTexts[a]) != TKeyOf(p.inlineTexts[b]))
 //@ pred MoveTableOK(p *Parser) = len(p.inlineMovements) == len(p.inlineMovementsSet)
 //@   && (forall k int :: {p.inlineMovements[k]} (0 <= k && k < len(p.inlineMovements)) ==> (allocated(p.inlineMovements[k]) && allocated(p.inlineMovements[k].Name)
 //@        && indom(p.inlineMovementsSet, MovKey(p.inlineMovements[k].MovementCommands)) && p.inlineMovementsSet[MovKey(p.inlineMovements[k].MovementCommands)] == p.inlineMovements[k].Name.Value
-//@        && p.inlineMovements[k].Scope == token.LOCAL))
+//@        && p.inlineMovements[k].Scope == token.LOCAL && TokLoc(p.inlineMovements[k].Token)))
 //@   && (forall a int, b int :: {p.inlineMovements[a], p.inlineMovements[b]} (0 <= a && a < b && b < len(p.inlineMovements)) ==> MovKey(p.inlineMovements[a].MovementCommands) != MovKey(p.inlineMovements[b].MovementCommands))
 
 // ---- completeness of the hoisting records (C06): 'holes' counts the argument slots left empty for hoisted content.
@@ -278,8 +281,8 @@ package parser
 //@ end
 
 // ---- construction and the top-level driver (C06, C18, C20) ----
-//@ pred TextStmtsOK(p *Parser) = forall k int :: {p.textStatements[k]} (0 <= k && k < len(p.textStatements)) ==> (allocated(p.textStatements[k]) && allocated(p.textStatements[k].Name))
-//@ pred MoveNamed(s ast.Statement) = typeis(s, ast.MovementStatement) ==> (allocated(as(s, ast.MovementStatement)) && allocated(as(s, ast.MovementStatement).Name))
+//@ pred TextStmtsOK(p *Parser) = forall k int :: {p.textStatements[k]} (0 <= k && k < len(p.textStatements)) ==> (allocated(p.textStatements[k]) && allocated(p.textStatements[k].Name) && TokLoc(p.textStatements[k].Token))
+//@ pred MoveNamed(s ast.Statement) = typeis(s, ast.MovementStatement) ==> (allocated(as(s, ast.MovementStatement)) && allocated(as(s, ast.MovementStatement).Name) && TokLoc(as(s, ast.MovementStatement).Token))
 
 //@ func New
 //@   requires l != nil && ValidUTF8(l.input) && LexInv(l)
@@ -303,6 +306,7 @@ package parser
 //@   requires [C18:pstate] PInv(p) && StackOK(p.breakStack) && StackOK(p.continueStack) && allocated(p.constants) && allocated(p.inlineTextCounts) && allocated(p.inlineMovementCounts)
 //@   requires [C18:pstate] p.constants != p.inlineMovementsSet
 //@   modifies fields(p), fields(p.l), fields(p.constants), fields(p.inlineTextCounts), fields(p.inlineMovementCounts), allof(ast.CommandStatement.Args)
+//@   ensures [C16,C18:text-tokens] result1 == nil ==> (forall k int :: {result0.Texts[k]} (0 <= k && k < len(result0.Texts)) ==> TokLoc(result0.Texts[k].Token))
 //@   ensures [C06,C20:text-names] result1 == nil ==> (result0 != nil && (forall a int, b int :: {result0.Texts[a], result0.Texts[b]} (0 <= a && a < b && b < len(result0.Texts)) ==> result0.Texts[a].Name != result0.Texts[b].Name))
 //@   ensures [C06,C20:move-names] result1 == nil ==> (forall a int, b int :: {result0.TopLevelStatements[a], result0.TopLevelStatements[b]} (0 <= a && a < b && b < len(result0.TopLevelStatements) && typeis(result0.TopLevelStatements[a], ast.MovementStatement) && typeis(result0.TopLevelStatements[b], ast.MovementStatement))
 //@               ==> as(result0.TopLevelStatements[a], ast.MovementStatement).Name.Value != as(result0.TopLevelStatements[b], ast.MovementStatement).Name.Value)
@@ -312,8 +316,10 @@ package parser
 //@     invariant [C18:program] program != nil && fresh(program) && TextStmtsOK(p) && (forall k int :: {program.TopLevelStatements[k]} (0 <= k && k < len(program.TopLevelStatements)) ==> MoveNamed(program.TopLevelStatements[k]))
 //@   loop 2
 //@     invariant [C18:program] program != nil && fresh(program) && TextStmtsOK(p)
+//@     invariant [C16,C18:text-tokens] forall k int :: {program.Texts[k]} (0 <= k && k < len(program.Texts)) ==> TokLoc(program.Texts[k].Token)
 //@   loop 3
 //@     invariant [C18:program] program != nil && fresh(program) && names != nil && fresh(names)
+//@     invariant [C16,C18:text-tokens] forall k int :: {program.Texts[k]} (0 <= k && k < len(program.Texts)) ==> TokLoc(program.Texts[k].Token)
 //@     invariant [C06,C20:text-names-inv] $i <= len(program.Texts) && (forall a int :: {program.Texts[a]} (0 <= a && a < $i) ==> indom(names, program.Texts[a].Name))
 //@        && (forall a int, b int :: {program.Texts[a], program.Texts[b]} (0 <= a && a < b && b < $i) ==> program.Texts[a].Name != program.Texts[b].Name)
 //@        && (forall nm string :: {indom(names, nm)} indom(names, nm) ==> (exists a int :: 0 <= a && a < $i && program.Texts[a].Name == nm))
@@ -321,7 +327,7 @@ package parser
 //@     invariant [C18:program] program != nil && fresh(program) && MoveTableOK(p) && (forall k int :: {program.TopLevelStatements[k]} (0 <= k && k < len(program.TopLevelStatements)) ==> MoveNamed(program.TopLevelStatements[k]))
 //@   loop 5
 //@     invariant [C18:program] program != nil && fresh(program) && movementNames != nil && fresh(movementNames) && (forall k int :: {program.TopLevelStatements[k]} (0 <= k && k < len(program.TopLevelStatements)) ==> MoveNamed(program.TopLevelStatements[k]))
-//@        && (forall nm string :: {indom(movementNames, nm)} indom(movementNames, nm) ==> allocated(movementNames[nm]))
+//@        && (forall nm string :: {indom(movementNames, nm)} indom(movementNames, nm) ==> (allocated(movementNames[nm]) && TokLoc(movementNames[nm].Token)))
 //@     invariant [C06,C20:move-names-inv] $i <= len(program.TopLevelStatements)
 //@        && (forall a int :: {program.TopLevelStatements[a]} (0 <= a && a < $i && typeis(program.TopLevelStatements[a], ast.MovementStatement)) ==> indom(movementNames, as(program.TopLevelStatements[a], ast.MovementStatement).Name.Value))
 //@        && (forall a int, b int :: {program.TopLevelStatements[a], program.TopLevelStatements[b]} (0 <= a && a < b && b < $i && typeis(program.TopLevelStatements[a], ast.MovementStatement) && typeis(program.TopLevelStatements[b], ast.MovementStatement))
@@ -453,7 +459,7 @@ package parser
 //@ func (p *Parser) parseCommandStatement
 //@   include ParseFrame
 //@   loopinv [C06:slot-inv] command != nil && fresh(command) && impData != nil && fresh(impData) && len(command.Args) >= 0 && len(argParts) >= 0
-//@   loopinv [C06:slot-inv] forall k int :: {impData.texts[k]} (0 <= k && k < len(impData.texts)) ==> (impData.texts[k].command == command && 0 <= impData.texts[k].argPos
+//@   loopinv [C06:slot-inv] forall k int :: {impData.texts[k]} (0 <= k && k < len(impData.texts)) ==> (TokLoc(impData.texts[k].text) && impData.texts[k].command == command && 0 <= impData.texts[k].argPos
 //@          && (impData.texts[k].argPos < len(command.Args) || (impData.texts[k].argPos == len(command.Args) && len(argParts) > 0)))
 //@   loopinv [C06:slot-inv] forall k int :: {impData.movements[k]} (0 <= k && k < len(impData.movements)) ==> (impData.movements[k].command == command && 0 <= impData.movements[k].argPos
 //@          && (impData.movements[k].argPos < len(command.Args) || (impData.movements[k].argPos == len(command.Args) && len(argParts) > 0)))
@@ -493,7 +499,7 @@ package parser
 
 //@ func (p *Parser) parseTextStatement
 //@   include ParseFrame
-//@   ensures [C18:text-named] result1 == nil ==> (result0 != nil && fresh(result0) && result0.Name != nil && fresh(result0.Name))
+//@   ensures [C18:text-named] result1 == nil ==> (result0 != nil && fresh(result0) && result0.Name != nil && fresh(result0.Name) && TokLoc(result0.Token))
 //@   requires [C18:text-stmts] TextStmtsOK(p)
 //@   ensures [C18:text-stmts] TextStmtsOK(p)
 //@   modifies p.textStatements
@@ -532,7 +538,7 @@ package parser
 
 //@ func (p *Parser) parseMovementStatement
 //@   include ParseFrame
-//@   ensures [C18:mov-named] result1 == nil ==> (result0 != nil && fresh(result0) && result0.Name != nil && fresh(result0.Name))
+//@   ensures [C18:mov-named] result1 == nil ==> (result0 != nil && fresh(result0) && result0.Name != nil && fresh(result0.Name) && TokLoc(result0.Token))
 //@   ensures [C20:stack-balanced] result1 == nil ==> (SameStack(p.breakStack, old(p.breakStack)) && SameStack(p.continueStack, old(p.continueStack)))
 //@   loopinv [C20:stack-balanced-inv] SameStack(p.breakStack, old(p.breakStack)) && SameStack(p.continueStack, old(p.continueStack))
 //@ end
@@ -600,6 +606,7 @@ package parser
 
 //@ func (p *Parser) parseFormatStringOperator
 //@   include ParseFrame
+//@   ensures [C16,C18:text-token] result3 == nil ==> TokLoc(result0)
 //@   loopinv [C18:font-token] 1 <= fontIdToken.LineNumber && fontIdToken.LineNumber <= fontIdToken.EndLineNumber
 //@   ensures [C20:stack-balanced] result3 == nil ==> (SameStack(p.breakStack, old(p.breakStack)) && SameStack(p.continueStack, old(p.continueStack)))
 //@   loopinv [C20:stack-balanced-inv] SameStack(p.breakStack, old(p.breakStack)) && SameStack(p.continueStack, old(p.continueStack))
@@ -648,6 +655,7 @@ package parser
 
 //@ func (p *Parser) parseSwitchStatement
 //@   include ParseFrame
+//@   loopinv [C18:switch-token] statement.Token == old(p.curToken)
 //@   loopinv [C06:slot-inv] resultImpData != nil && fresh(resultImpData) && ImpOK(resultImpData)
 //@   loopinv [C06:complete-inv] ImpSize(resultImpData) == holes - old(holes)
 //@   ensures [C06:slot] result3 == nil ==> (ImpOK(result2) && (result2 == nil || fresh(result2)))
